@@ -90,7 +90,7 @@ def _file(name):
 def gen_binding(rng, P: Pools, t, shell, composite=False, allow_valuefrom=True):
     b = {}
     if rng.random() < 0.75:
-        b["position"] = rng.choice([0, 1, 2, 5, -1, 1, 2])
+        b["position"] = rng.choice([0, 1, 2, 5, -1, 1, 2, -2, 9, 10, 11, 100])
     elif rng.random() < 0.3:
         b["position"] = rng.choice(["$(inputs.pos)", "${return 3;}", "$(1+1)"])
     if rng.random() < 0.5:
@@ -99,9 +99,13 @@ def gen_binding(rng, P: Pools, t, shell, composite=False, allow_valuefrom=True):
             b["separate"] = rng.random() < 0.3
     if t.endswith("[]") and rng.random() < 0.5:
         b["itemSeparator"] = P.separator()
+        if rng.random() < 0.5:  # itemSeparator x prefix x separate: false (arrays of length 0..3)
+            b.setdefault("prefix", P.prefix(composite))
+            b["separate"] = rng.random() < 0.3
     if allow_valuefrom and rng.random() < 0.15 and t in ("string", "int", "string?", "File", "string[]"):
+        # a literal valueFrom on an array binding is hostile content in a composite binding: class W only
         b["valueFrom"] = {"string": "$(self)x", "int": "$(self + 1)", "string?": "$(self)", "File": "$(self.basename)",
-                          "string[]": "$(self.length)"}[t] if rng.random() < 0.7 else rng.choice(DOC_STRS)
+                          "string[]": "$(self.length)"}[t] if (rng.random() < 0.7 or (composite and P.mode != "W")) else rng.choice(DOC_STRS)
     if shell and rng.random() < 0.3:
         b["shellQuote"] = rng.random() < 0.4
     return b
@@ -228,7 +232,7 @@ def gen_rich(rng, probe_path: str, mode: str) -> dict:
             if r < 0.3:
                 args.append(rng.choice(DOC_STRS))
             elif r < 0.5:
-                args.append({"valueFrom": "$(inputs.pos)", "position": rng.choice([0, 3, -2])})
+                args.append({"valueFrom": "$(inputs.pos)", "position": rng.choice([0, 3, -2, -1, 9, 10, 11, 100])})
             elif r < 0.7:
                 a = {"prefix": P.prefix(), "valueFrom": rng.choice(DOC_STRS)}
                 if rng.random() < 0.4:
@@ -237,7 +241,7 @@ def gen_rich(rng, probe_path: str, mode: str) -> dict:
             elif r < 0.85:
                 args.append({"valueFrom": "$(inputs.pos + 1)", "prefix": "-n", "position": rng.choice([1, 2])})
             else:
-                a = {"valueFrom": rng.choice(DOC_STRS), "position": rng.choice([0, 1, 9])}
+                a = {"valueFrom": rng.choice(DOC_STRS), "position": rng.choice([0, 1, 2, 9, 10, 100, -1])}
                 if shell:
                     a["shellQuote"] = rng.random() < 0.5
                 args.append(a)
@@ -453,3 +457,10 @@ def shrink_candidates(case: dict):
                     c = copy.deepcopy(case)
                     del c["tool"]["inputs"][name]["inputBinding"][opt]
                     yield f"{name}: drop {opt}", c
+        t = schema.get("type")
+        if isinstance(t, dict) and isinstance(t.get("inputBinding"), dict):
+            for opt in ("shellQuote", "separate", "prefix", "itemSeparator"):
+                if opt in t["inputBinding"]:
+                    c = copy.deepcopy(case)
+                    del c["tool"]["inputs"][name]["type"]["inputBinding"][opt]
+                    yield f"{name}: drop item {opt}", c
